@@ -28,6 +28,12 @@ CHECKS = {
  "C09": ("deblock", "exhaustive enumeration of the kernel input domain (2^32 patterns x 12 strengths x vector/scalar slot x both passes) plus bounded-exhaustive shape sweep against a scalar Annex J model",
          "The four-sample kernel is decided over its whole finite domain (thorough: all 2^32 x 12 in a vector lane and in the scalar remainder of both passes; quick: all 2^32 for one strength + a 32x32 (A,B) lattice x all (C,D) elsewhere) through the public deblock() on images that isolate one pass; whole-image behaviour (edge positions, pass order, untouched samples, incomplete edges) is compared with an edge-by-edge model for every width x height in a dense range x 12 strengths x 6 contents.",
          "Trusts the i32 transcription of the Annex J formulas and Table J.2; images larger than the shape bound are represented by their residues mod 8.", "3.9"),
+ "C13": ("pipeline", "bounded-exhaustive size x quantizer sweep: decode, check the plane-size relations, deblock with the tabulated strength, convert - all under catch_unwind",
+         "Every picture size 1..48 (thorough 64) squared x quantizers 1..31 (fully crossed up to 20x20, pairwise beyond) as I pictures, plus a P and a D picture per size, plus long/thin extras and standard-mode sizes: the decoded planes must satisfy the documented size relations and the two post-processing stages must complete and return width x height pixels.",
+         "Sizes beyond the bound are represented by residue classes (mod 16 for the decoder, mod 8 / <10 for the deblocker, mod 4 / mod 2 for the converter), all inside the bound.", "3.13"),
+ "C15": ("stream", "bounded-exhaustive enumeration of all picture sequences up to length 3 over a picture alphabet (types x sizes x all 8 padding lengths x 2 bodies), one-reader decoder vs per-picture-reader decoder vs reference decoder",
+         "All sequences of up to three pictures from an alphabet realising every padding length 0..7 and both 'last macroblock coded / not coded' endings, from a fresh decoder and after an I picture, in Sorenson and standard mode: the decoder reading the concatenation from one reader must agree call by call with a decoder given one reader per picture and with the reference decoder, and end within 8 bits of the end of data.",
+         "Pictures of a sequence share one size; alphabet sizes are small (<= 32x16, sub-QCIF in the thorough tier).", "3.15"),
  "C14": ("bitreader", "explicit-state breadth-first search to fixpoint over the real H263Reader (state = bytes pulled, buffer length, bit offset) for every short source, each transition compared with a bit-vector model; plus exhaustive one-step value sweep",
          "For every source of up to 4 (thorough 5) bytes over a byte alphabet chosen for start codes/stuffing/mixed bits, delivered whole or split, the complete reachable state graph of the reader under ~670 operations per state (peeks, reads, signed reads, skips, start-code search, commits, VLC/UMV reads, successful/failed/nested transactions, unions, look-aheads, source growth) is explored; every returned value/error is compared with the model and a drain probe at every new state checks that each remaining bit is delivered exactly once in order. All 65536 two-byte sources x offsets x widths 0..33 x types cover data values.",
          "State key read through the cfg-gated hook (destructures the struct, so it is the reader's whole state); operation alphabet and source alphabet are bounds; commit inside a failing transaction and zero-width signed reads are outside the documented contract and not generated.", "3.14"),
